@@ -347,6 +347,13 @@ func runCSOrder(c *core.Ctx) {
 						Avoid: func(a ast.Node) bool { return a == ast.Node(sw.Tag) }})
 					c.Check(!p.Found, "Run:every-iteration-examines-err", sw.Pos(), "every cycle from Body back to Body evaluates the switch on err",
 						"there is a cycle from Body back to Body that skips the switch on err: an error (abort, Done, failure) could be ignored")
+					// no way out of Run between a section outcome (Body / commit result in err) and the switch
+					for i, from := range append([]ast.Node{body}, commitCalls...) {
+						q := g.Search(an.Query{From: from, ToExit: true,
+							Avoid: func(a ast.Node) bool { return a == ast.Node(sw.Tag) }})
+						c.Check(!q.Found, fmt.Sprintf("Run:no-exit-before-outcome-examined#%d", i+1), from.Pos(), "every path from this section outcome to a return of Run evaluates the switch on err",
+							"Run can return after this call without dispatching on err: a failed section is reported as success and an aborted one is never rolled back")
+					}
 					hasAbortArm, armsOK := false, true
 					var badArm string
 					for _, st := range sw.Body.List {
